@@ -2471,7 +2471,14 @@ FROM (
         on_clause = self._join_on_clause(id_names, "a", "b")
 
         if op == tokens.INTERSECT:
-            return f"SELECT a.* FROM ({a_sql}) AS a SEMI JOIN ({b_sql}) AS b ON {on_clause}"
+            # Keep the datapoints of the first operand whose identifiers are in EVERY other operand.
+            result_sql = a_sql
+            for other_sql in child_sqls[1:]:
+                result_sql = (
+                    f"SELECT a.* FROM ({result_sql}) AS a "
+                    f"SEMI JOIN ({other_sql}) AS b ON {on_clause}"
+                )
+            return result_sql
         elif op == tokens.SETDIFF:
             return f"SELECT a.* FROM ({a_sql}) AS a ANTI JOIN ({b_sql}) AS b ON {on_clause}"
         elif op == tokens.SYMDIFF:
